@@ -197,20 +197,24 @@ def history_independence(chk):
     n = 0
     for u, v in itertools.permutations(scal, 2):
         for wrap in (lambda x: x, lambda x: [x], lambda x: {"k": (x,)}):
-            hy.as_model(wrap(u))
-            m = hy.as_model(wrap(v))
-            leaf = m
-            while isinstance(leaf, hm.Sequence):
-                leaf = leaf[-1]
             n += 1
-            ok = same(leaf, v)
-            if ok:
-                back = hy.eval(m, module=types.ModuleType("hv_c29h"))
-                while isinstance(back, (list, tuple, dict)):
-                    back = list(back.values())[-1] if isinstance(back, dict) else back[-1]
-                ok = type(back) is type(v) and repr(back) == repr(v)
+            try:        # (whatever the code under verification raises here is an observation, not a crash of the check)
+                hy.as_model(wrap(u))
+                m = hy.as_model(wrap(v))
+                leaf = m
+                while isinstance(leaf, hm.Sequence):
+                    leaf = leaf[-1]
+                ok = same(leaf, v)
+                if ok:
+                    back = hy.eval(m, module=types.ModuleType("hv_c29h"))
+                    while isinstance(back, (list, tuple, dict)):
+                        back = list(back.values())[-1] if isinstance(back, dict) else back[-1]
+                    ok = type(back) is type(v) and repr(back) == repr(v)
+                shown = repr(m)
+            except Exception as e:  # noqa: BLE001
+                ok, shown = False, f"{type(e).__name__}: {e}"[:200]
             if not ok and bad is None:
-                bad = (u, v, repr(m))
+                bad = (u, v, shown)
     chk.case(("history", n))
     chk.ob("history/what as_model returns for a value does not depend on the values promoted before it (equal scalars of different types, "
            "zeros of either sign; node-wise and after evaluation)", bad is None, "rtc", "bounded",
@@ -263,7 +267,12 @@ def existing_models(chk):
             got = "HyWrapperError"
         except RecursionError:
             got = "RecursionError"
-        after = hy.as_model([1, (2,)]) == M.List([M.Integer(1), M.Tuple([M.Integer(2)])])
+        except Exception as e:  # noqa: BLE001
+            got = type(e).__name__
+        try:
+            after = hy.as_model([1, (2,)]) == M.List([M.Integer(1), M.Tuple([M.Integer(2)])])
+        except Exception:  # noqa: BLE001
+            after = False
         chk.ob(f"existing-models/cycle {what}: HyWrapperError, and as_model keeps working", got == "HyWrapperError" and after, "rtc", "bounded",
                detail=f"{got}; afterwards ok={after}",
                replay=None if got == "HyWrapperError" and after else {"confirmed": True, "input": "l = [1]; m = " + what + "; l.append(m); hy.as_model(m)",
